@@ -471,7 +471,7 @@ def main(tier):
     top = [(u, t) for t in inner if is_sym(t) for u in ("floor", "ceil", "trunc")]
     ntrees += len(top)
     for i in range(0, len(top), 40):
-        tasks.append((top[i:i + 40], syms, (1, 2, 3, 5, 8, 13), False))
+        tasks.append((top[i:i + 40], syms, (1, 2, 3, 5, 8, 13), True))
     for leaves, depth, bins, uns, domain, simp in plans:
         trees = gen_trees(leaves, depth, bins, uns)
         ntrees += len(trees)
